@@ -28,6 +28,8 @@ CANARIES = [
     {'name': 'eq-always-true', 'file': 'clastic/middleware/core.py',
      'old': "        return type(self) == type(other)", 'new': "        return isinstance(other, Middleware)"},
 ]
+# make_middleware_chain is shared with C01/C04: its reserved-name and unresolved-argument clauses are theirs
+OWN = [r'^(?!middleware\.core\.make_middleware_chain/(ensures\[[0-3]\]|raises))']
 QUICK_CANARIES = 2
 
 
@@ -62,3 +64,8 @@ def build(pc, E, canary=None):
         'is validated by the bounded stand-in)',
         'behaviour of user middleware code itself is not decided',
     ]
+
+
+def fallback(pc):
+    from props.C02 import GENERAL_CASE
+    return [{'script': 'c01_case.py', 'case': GENERAL_CASE}]
